@@ -14,6 +14,7 @@ mod procs;
 mod props;
 mod pycheck;
 mod reach;
+mod threads;
 
 use engine::{Tier, Found};
 
@@ -59,6 +60,11 @@ fn main() {
             procs::worker_main(&args[2], tier, p(4), p(5), p(6), p(7), &skip)
         }
         "exec-scenario" => procs::exec_scenario_main(&args[2], &args[3]),
+        "digest-batch" => {
+            let p = |i: usize| args.get(i).and_then(|s| s.parse::<u64>().ok()).unwrap_or(0);
+            print!("{}", threads::digest_batch(p(2), p(3)));
+            0
+        }
         _ => usage(),
     };
     std::process::exit(code);
@@ -87,11 +93,221 @@ fn run_check(prop: &str, tier: Tier) -> i32 {
         "C18" => check_c18(tier, seed),
         "C12" => check_c12(tier, seed),
         "C09" => check_c09(tier, seed),
+        "C07" => check_c07(tier, seed),
         _ => {
             eprintln!("property {} has no check yet", prop);
             2
         }
     }
+}
+
+fn minimise_plan(plan: &threads::Plan, class: &str) -> (threads::Plan, usize) {
+    let mut best = plan.clone();
+    let mut tries = 0;
+    let t0 = std::time::Instant::now();
+    let mut progressed = true;
+    while progressed && tries < 200 && t0.elapsed().as_secs() < 90 {
+        progressed = false;
+        let n = best.tasks.len();
+        for drop_t in (0..n).rev() {
+            if best.tasks.len() <= 1 {
+                break;
+            }
+            // remove task drop_t, renumber
+            let mut c = best.clone();
+            c.tasks.remove(drop_t);
+            for p in c.placement.iter_mut() {
+                p.retain(|x| *x != drop_t);
+                for x in p.iter_mut() {
+                    if *x > drop_t {
+                        *x -= 1;
+                    }
+                }
+            }
+            c.placement.retain(|p| !p.is_empty());
+            c.twins.retain(|(a, b)| *a != drop_t && *b != drop_t);
+            for (a, b) in c.twins.iter_mut() {
+                if *a > drop_t {
+                    *a -= 1;
+                }
+                if *b > drop_t {
+                    *b -= 1;
+                }
+            }
+            c.schedule = None;
+            if c.placement.is_empty() {
+                continue;
+            }
+            tries += 1;
+            let mut st = engine::Stats::default();
+            if threads::judge(&c, &mut st).violation.is_some_and(|v| v.class == class) {
+                best = c;
+                progressed = true;
+                break;
+            }
+        }
+    }
+    (best, tries)
+}
+
+fn check_c07(tier: Tier, seed: u64) -> i32 {
+    use std::sync::atomic::{AtomicU64, Ordering};
+    let t0 = std::time::Instant::now();
+    let known = engine::load_known();
+    let sims = runs_override(match tier { Tier::Quick => 2_500, Tier::Thorough => 250_000 });
+    let cap = wall_cap(tier);
+    let nt = engine::n_threads() as u64;
+    let first_bad = AtomicU64::new(u64::MAX);
+    let results: Vec<(engine::Stats, Vec<(u64, threads::Plan, props::Violation)>, std::collections::HashSet<u64>)> = std::thread::scope(|s| {
+        let mut hs = vec![];
+        for t in 0..nt {
+            let first_bad = &first_bad;
+            hs.push(s.spawn(move || {
+                let mut stats = engine::Stats::default();
+                let mut found = vec![];
+                let mut schedules = std::collections::HashSet::new();
+                let mut i = t;
+                while i < sims {
+                    if i > first_bad.load(Ordering::Relaxed) || t0.elapsed().as_secs_f64() > cap {
+                        break;
+                    }
+                    let plan = threads::draw_plan(seed, i);
+                    let v = threads::judge(&plan, &mut stats);
+                    stats.evaluations += 1;
+                    schedules.insert(desc::digest(&v.sim.schedule));
+                    if v.nontrivial {
+                        let mut d = desc::digest(&v.sim.schedule);
+                        for o in v.sim.outputs.iter().flatten().flatten() {
+                            d = desc::mix64(d ^ desc::digest(o));
+                        }
+                        stats.nontrivial.insert(d);
+                    }
+                    if stats.samples.len() < 2 && i % 16 == 0 {
+                        let mut p = plan.clone();
+                        p.schedule = Some(v.sim.schedule.clone());
+                        let mut j = p.to_json();
+                        // keep the sample readable
+                        if let Some(h) = j.get_mut("schedule_hex") {
+                            if let Some(sx) = h.as_str() {
+                                let short: String = sx.chars().take(160).collect();
+                                *h = json!(format!("{}... ({} decisions)", short, v.sim.schedule.len()));
+                            }
+                        }
+                        stats.samples.push(json!({"simulation_index": i, "plan": j, "switches": v.sim.switches, "steps": v.sim.steps}));
+                    }
+                    if let Some(vi) = v.violation {
+                        let mut p = plan.clone();
+                        p.schedule = Some(v.sim.schedule.clone());
+                        found.push((i, p, vi));
+                        first_bad.fetch_min(i, Ordering::Relaxed);
+                    }
+                    i += nt;
+                }
+                (stats, found, schedules)
+            }));
+        }
+        hs.into_iter().map(|h| h.join().unwrap()).collect()
+    });
+    let mut stats = engine::Stats::default();
+    let mut found = vec![];
+    let mut schedules = std::collections::HashSet::new();
+    for (s, f, sc) in results {
+        stats.merge(s);
+        found.extend(f);
+        schedules.extend(sc);
+    }
+    found.sort_by_key(|f| f.0);
+    // proc dimension: the same batch in fresh processes (new ASLR, new std hash keys)
+    let nproc = 8;
+    let batch = match tier { Tier::Quick => 400u64, Tier::Thorough => 20_000 };
+    let exe = std::env::current_exe().unwrap();
+    let children: Vec<_> = (0..nproc)
+        .map(|_| std::process::Command::new(&exe).args(["digest-batch", &seed.to_string(), &batch.to_string()]).stdout(std::process::Stdio::piped()).stderr(std::process::Stdio::null()).spawn())
+        .collect();
+    let mut outs: Vec<String> = vec![];
+    for c in children {
+        if let Ok(c) = c {
+            if let Ok(o) = c.wait_with_output() {
+                outs.push(String::from_utf8_lossy(&o.stdout).to_string());
+            }
+        }
+    }
+    stats.add("fault.proc.fresh_processes_compared", outs.len() as u64);
+    stats.add("c07.proc_batch_scenarios", batch);
+    let mut proc_violation: Option<(Value, props::Violation)> = None;
+    if outs.len() >= 2 {
+        for (pi, o) in outs.iter().enumerate().skip(1) {
+            if *o != outs[0] {
+                let la: Vec<&str> = outs[0].lines().collect();
+                let lb: Vec<&str> = o.lines().collect();
+                let idx = la.iter().zip(lb.iter()).position(|(a, b)| a != b).unwrap_or(la.len().min(lb.len()));
+                proc_violation = Some((
+                    json!({"seed": seed.to_string(), "batch": batch, "scenario_index": idx}),
+                    props::Violation::new("C07", "twin-differs(process)", format!("process #{} disagrees with process #0 on scenario {} of the batch", pi, idx)),
+                ));
+                break;
+            }
+        }
+    } else {
+        eprintln!("HARNESS ERROR: could not run child processes for the proc dimension");
+        return 2;
+    }
+    let mut unknown: Vec<&(u64, threads::Plan, props::Violation)> = vec![];
+    for f in &found {
+        if engine::known_match(&known, &f.2).is_some() {
+            stats.bump(&format!("known.{}", f.2.class));
+        } else {
+            unknown.push(f);
+        }
+    }
+    for k in known.iter().filter(|k| k.status == "known" && k.property == "C07") {
+        println!("KNOWN-FINDING: property=C07 class={} {}", k.class, k.what);
+    }
+    let mut code = 0;
+    let mut nviol = 0;
+    if let Some((i, plan, v)) = unknown.first() {
+        let mut unsched = plan.clone();
+        unsched.schedule = None;
+        let (m, tries) = minimise_plan(&unsched, &v.class);
+        // record the schedule of the minimised plan
+        let mut st = engine::Stats::default();
+        let jm = threads::judge(&m, &mut st);
+        let (body, minimised) = if jm.violation.as_ref().is_some_and(|x| x.class == v.class) {
+            let mut mm = m.clone();
+            mm.schedule = Some(jm.sim.schedule.clone());
+            (mm.to_json(), true)
+        } else {
+            (plan.to_json(), false)
+        };
+        let path = engine::write_replay("C07", "plan", body, v, minimised, json!({"simulation_index": i, "original": plan.to_json(), "minimiser_executions": tries}));
+        println!("violation class={} simulation={} detail={}", v.class, i, v.detail);
+        println!("VIOLATION property=C07 replay={}", path);
+        code = 1;
+        nviol = unknown.len();
+    } else if let Some((body, v)) = &proc_violation {
+        if engine::known_match(&known, v).is_none() {
+            let path = engine::write_replay("C07", "procs", body.clone(), v, false, json!({}));
+            println!("violation class={} detail={}", v.class, v.detail);
+            println!("VIOLATION property=C07 replay={}", path);
+            code = 1;
+            nviol = 1;
+        }
+    }
+    let wall = t0.elapsed().as_secs_f64();
+    stats.add("c07.distinct_schedules(by hash of the schedule string)", schedules.len() as u64);
+    engine::write_evidence(engine::EvidenceIn {
+        prop: "C07", tier, seed, level: "exploration",
+        rule: "one evaluation = one multi-task simulation: 1..10 generator tasks (most with a twin under another simulator-chosen memo hash key) placed on 1..16 real OS threads, interleaved at emission granularity by a seeded baton scheduler (policies bursty/uniform/round-robin/PCT-style/sequential); every task's bytes must equal the same task run alone on a fresh thread with the canonical key; plus the same scenario batch digested in 8 fresh processes; non-trivial = some task emitted a GET-family opcode with >= 2 memo keys (the only place map order can reach the output) or twins overlapped in time; distinct = distinct (schedule string, outputs) digests",
+        stats: &stats, wall_s: wall, violations: nviol, known: 0,
+        extra: json!({"simulations_requested": sims, "distinct_schedules": schedules.len(), "fresh_processes": outs.len(),
+            "not_controlled": ["rayon scheduling inside the CLI (observed by C13 at several worker counts)", "ASLR / allocation addresses and the hash seeds of pointer-keyed Dict/Set cells (varied per process/thread, not chosen)"]}),
+        assumptions: vec!["exactly one task thread runs at any time (baton), so data races are not observable here; the library has no shared mutable state except a OnceLock".into(),
+            "only the memo map is keyed by the simulator; pointer-keyed sets are varied, not chosen".into()],
+        exhaustive: false,
+    });
+    println!("done property=C07 simulations={} task_executions={} distinct_schedules={} distinct_nontrivial={} wall={:.1}s violations={}",
+        stats.evaluations, stats.counters.get("c07.task_executions").copied().unwrap_or(0), schedules.len(), stats.nontrivial.len(), wall, nviol);
+    code
 }
 
 fn check_c09(tier: Tier, seed: u64) -> i32 {
@@ -396,6 +612,48 @@ fn run_replay(path: &str) -> i32 {
                 1
             } else {
                 println!("not reproduced: property={} class={} (the tree no longer violates it on this input)", prop, class);
+                0
+            }
+        }
+        "plan" => {
+            let Some(plan) = threads::Plan::from_json(&doc["scenario"]) else {
+                eprintln!("bad plan");
+                return 2;
+            };
+            let mut st = engine::Stats::default();
+            let v = threads::judge(&plan, &mut st);
+            if v.sim.diverged {
+                println!("note: the recorded schedule no longer fits the execution (code changed); decisions fell back to 'keep running'");
+            }
+            match v.violation {
+                Some(x) if x.class == class => {
+                    println!("replayed: class={} detail={}", x.class, x.detail);
+                    println!("VIOLATION property={} replay={}", prop, path);
+                    1
+                }
+                _ => {
+                    println!("not reproduced: property={} class={}", prop, class);
+                    0
+                }
+            }
+        }
+        "procs" => {
+            let seed: u64 = doc["scenario"]["seed"].as_str().and_then(|s| s.parse().ok()).unwrap_or(0);
+            let batch = doc["scenario"]["batch"].as_u64().unwrap_or(100);
+            let exe = std::env::current_exe().unwrap();
+            let run = || std::process::Command::new(&exe).args(["digest-batch", &seed.to_string(), &batch.to_string()]).output().map(|o| o.stdout).unwrap_or_default();
+            let a = run();
+            let mut differs = false;
+            for _ in 0..7 {
+                if run() != a {
+                    differs = true;
+                }
+            }
+            if differs {
+                println!("VIOLATION property={} replay={}", prop, path);
+                1
+            } else {
+                println!("not reproduced: property={} class={}", prop, class);
                 0
             }
         }
